@@ -127,7 +127,7 @@ SEEDS = {
     "C08b-grouping-display-alone": dict(
         property="C08", change="compileGrouping adds the display mappings of the grouping characters only when the translation table is compiled too",
         needs="a table with a `grouping` rule, a display-only call (lou_charToDots) before the first translation",
-        first="missed", strengthened="pool table with a grouping rule and inputs containing its characters"),
+        first="missed", strengthened="pool table with a grouping rule and inputs containing its characters; fixed scenarios from an empty cache: display-only call first, then a translation, and the other way round"),
     "C09b-typeform-bound": dict(
         property="C09", change="typeform marks written only for k < *inlen",
         needs="typeform supplied and an expanding translation (outlen > inlen)",
@@ -153,10 +153,6 @@ SEEDS = {
         property="C14", change="same display-table cache slip as C15-display-cache-stale, offered for C14",
         needs="display rules added at run time to a cached list until its display table grows and moves",
         first="missed by C14 (caught by C15)", strengthened="C14 got a display-rule operation and every fifth sequence runs without arena slack"),
-    "C15b-compilestring-errorcount": dict(
-        property="C15", change="compileString returns !errorCount, but only compileTable resets that static counter",
-        needs="a rejected lou_compileString call followed by a valid one with no compilation of a new list in between",
-        first="caught (C15 and C14: add-result, a valid rule answered with 0)", strengthened=""),
     "C16b-getachar-nul-ends": dict(
         property="C16", change="getAChar loops `while ((ch1 = fgetc()) > 0)`: a NUL byte ends the file",
         needs="a table file stored as UTF-16 big-endian",
@@ -182,6 +178,81 @@ SEEDS = {
         property="C03", change="the noContractions test dropped from the nocont case of for_selectRule (doNocont returns at once in that mode)",
         needs="noContractions mode, a nocont rule, input containing its string",
         first="missed (C03 used dotsIO only for generated tables)", strengthened="other mode bits (noContractions, partialTrans, ...) on the generated tables"),
+    # ---- third round (told the mechanisms of both earlier rounds)
+    "C02c-free-keeps-passbuf-size": dict(
+        property="C02", change="lou_free no longer resets sizePassbuf[k]",
+        needs="(back-)translate, lou_free, back-translate again with a capacity not larger than before: NULL pass buffer",
+        first="missed by C02 (caught by C14 and C08 as crashes: the call sequence is their domain)", strengthened="none for C02: its streams never call lou_free; C14's free_covers_all_scratch_state also breaks"),
+    "C03d-endtest-clause-dropped": dict(
+        property="C03", change="the `startReplace < startMatch` clause dropped from the forward pass_endTest",
+        needs="a look-back in front of '[' so that the replaced range lies before the match start, a second rule deleting the cell in between",
+        first="caught (C03: hangs at sites 0-2; C06: forward mismatch)", strengthened=""),
+    "C04c-ucbrl-without-dotsio": dict(
+        property="C04", change="the output loop of _lou_translate tests ucBrl before dotsIO: ucBrl alone yields Unicode cells",
+        needs="forward translation with ucBrl set and dotsIO clear",
+        first="missed by C04 (its predicate cannot tell display characters from U+28xx without the display table); C09 only via the translator alarm",
+        strengthened="C09 runs every case also with ucBrl alone and requires the result of the same call without the bit: concrete replay"),
+    "C05c-validmatch-caseless-letter": dict(
+        property="C05", change="validMatch tests `attributes & CTC_Letter` instead of `!= CTC_Letter`",
+        needs="plain `letter` characters mixed with lowercase/uppercase ones in a rule of length >= 3",
+        first="caught (C05: engine mismatch)", strengthened=""),
+    "C06c-back-compose-le": dict(
+        property="C06", change="backward map composition `prevPosMapping[k] < realInlen` became `<=`",
+        needs="two backward stages, the later one expanding and stopping early for lack of room",
+        first="caught (C06: backward mismatch)", strengthened=""),
+    "C07c-inlen-after-inputpos": dict(
+        property="C07", change="*inlen assigned after the inputPos clamp instead of before",
+        needs="inputPos supplied, a partial translation cut between an indicator cell and its letter in the first word",
+        first="caught (C07: finish mismatch)", strengthened=""),
+    "C08c-translation-direction-leak": dict(
+        property="C08", change="translation_direction no longer set by the forward pass but restored at the end of the backward pass (one early return skips it)",
+        needs="a backward context rule whose replacement does not fit, then a forward call with a table using attribute patterns in match rules",
+        first="missed",
+        strengthened="the inventory now finds non-static globals (translation_direction was missing from it); theorem direction_is_set_by_every_main_pass over the regenerated assignments; ordered scenarios in the C08 histories: concrete replay"),
+    "C09c-getdotsforchar-zero": dict(
+        property="C09", change="_lou_getDotsForChar returns 0 instead of the flagged blank cell for an unmapped character",
+        needs="back-translation of text containing a character the display table does not map",
+        first="missed", strengthened="C09 also back-translates arbitrary strings (with unmapped characters), not only forward outputs"),
+    "C10c-endcomp-cursor-status": dict(
+        property="C10", change="doCompTrans emits the endcomp indicator only when cursorStatus == 1",
+        needs="a compbrl/literal word, endcomp defined, cursorPos non-NULL pointing behind the word",
+        first="caught (C10: presence dependence, cursor sweep)", strengthened=""),
+    "C11c-dotstochar-virtual-dots": dict(
+        property="C11", change="lou_dotsToChar treats every cell not in 0x80xx as Unicode braille",
+        needs="a character mapped one-to-one to a cell with a virtual dot (9-15)",
+        first="caught (C11: display round trip; C09: default output vs lou_dotsToChar)", strengthened=""),
+    "C12c-swap-offset-cast": dict(
+        property="C12", change="a cast binds before the shift: the upper half of a swap rule reference in an action is stored as 0",
+        needs="a swap rule behind image offset 0x10000 (512 KiB of rules) used in the action of a multipass rule",
+        first="missed", strengthened="two images grown beyond 600 KiB by run-time additions, with swap/grouping rules and programs referring to them added last"),
+    "C13c-compilefile-no-break": dict(
+        property="C13", change="compileFile goes on behind a failing rule (lost `break`)",
+        needs="an include cycle with two or more include lines on it: 2^32 compileFile calls",
+        first="caught at proof level only (GErrors shape)", strengthened="self-including tables with two and three include lines: concrete compile-hang replay"),
+    "C14c-finalized-flag-early": dict(
+        property="C14", change="finalizeTable sets `finalized` first (same slip as C13-finalized-flag-early, offered for C14)",
+        needs="a list that compiles but is rejected by the finalisation, used twice",
+        first="missed by C14 (caught by C13)", strengthened="C14 got an operation using such a list"),
+    "C15c-include-depth-leak": dict(
+        property="C15", change="includeFile does not restore includeDepth when the included file fails",
+        needs="32 rejected run-time include rules, then a valid one",
+        first="missed", strengthened="bursts of 40 rejected rules of one kind followed by a valid one in the C15 sequences"),
+    "C17c-cache-prefix-match": dict(
+        property="C17", change="the table cache accepts a cached list of which the requested one is a prefix",
+        needs="`X,dictionary` used first, then `X` alone in the same process",
+        first="missed by C17 (caught by C14 and C08)", strengthened="C17 hyphenates with the list without its dictionary right after the list with it"),
+    "C18c-feature-sort-case": dict(
+        property="C18", change="cmpFeatures compares keys case-sensitively (the merge downstream is case-insensitive)",
+        needs="a header key with an upper-case letter whose strcmp order differs from its strcasecmp order",
+        first="caught (C18: select mismatch, getTableInfo)", strengthened=""),
+    "C19c-null-resets-level": dict(
+        property="C19", change="lou_registerLogCallback(NULL) also resets the threshold to INFO",
+        needs="a non-INFO threshold, then registering NULL, then a message between INFO and the threshold",
+        first="caught (C19: model mismatch, filter mismatch)", strengthened=""),
+    "C20c-unresolved-not-counted": dict(
+        property="C20", change="errorCount++ dropped where the translation part is compiled alone and a name cannot be resolved",
+        needs="an entry point that compiles only the translation part (lou_getEmphClasses) with a name found nowhere",
+        first="missed", strengthened="C20 also asks lou_getEmphClasses for every arrangement"),
 }
 
 
